@@ -338,7 +338,10 @@ func checkC17(c *Case, r *Rec) error {
 					}
 					doc := string(st.Conform[pi])
 					outDoc := lp.p.Sanitize(doc)
-					if _, err := sameModuloForced(m, doc, outDoc); err != nil {
+					if hasEmptyFragmentURL(doc) {
+						// known finding D38 (C07 / C04): an empty fragment is not written back
+						r.Excluded("e_not_asserted_on_documents_with_an_empty_fragment_url")
+					} else if _, err := sameModuloForced(m, doc, outDoc); err != nil {
 						return violation(outDoc, "C17(e): policy #%d with history %s does not pass a document of its own vocabulary: %v (document %s)", pi, histSpec(lp.base, lp.hist).String(), err, q(trunc(doc, 200)))
 					}
 				}
